@@ -166,7 +166,7 @@ class Renderer:
     def strval(self, v):
         """string literal for the valid-variant v"""
         return {"hexesc_end": '"abc\\x41"',
-                "hexesc_mid": '"a\\x41b\\X0042 c\\x1"',
+                "hexesc_mid": '"a\\x41g\\X0042 c\\x1 d"',
                 "escapes": '"\\b\\t\\n\\f\\r\\"\\\'\\\\"',
                 "nonascii_string": '"é中\U0001F600 ü"',
                 "multistring": '"abc" "def" "g"'}.get(v, '"abc"')
@@ -529,7 +529,7 @@ class Renderer:
         "bad_binary": ["102b", "2B"],
         "bad_octal": ["089", "09"],
         "lone_quote": ["'", "''", "'ab'"],
-        "illegal_after_cr": ["\n\r\r@", "\n\r\r\r\x01"],
+        "illegal_after_cr": ["\n\r\r\r@\n", "\n\r\r\r\r\x01\n"],
         "newline_in_string": ['"ab\ncd"'],
     }
 
@@ -889,32 +889,38 @@ def reference(handle):
     return _REF[handle]
 
 
+PRELUDE_LENS = [{"fid": 0, "lens": [len(x) for x in PRELUDE.split("\n")]}]
+
+
 def run_session(ses, seed, workdir, timeout=10.0, keep=False):
-    """Render and run one session: PRELUDE (setup), the session ("bad"), then
-    GOOD on the same object.  Returns dict(events=[bad, good], info=...)."""
+    """Render and run one session on one compiler object: PRELUDE ("setup"),
+    the session ("bad"), then GOOD ("good").
+    Returns dict(events=[setup, bad, good], info=...)."""
     warnings.simplefilter("ignore")
     sys.setrecursionlimit(1200)
     r = render(ses, seed, workdir)
     api, handle = ses["api"], ses["handle"]
     cwd = os.getcwd()
+    blank = dict(digest="", refout="", refdigest="")
     try:
         os.chdir(workdir)
         t = Target(handle, search_paths=r.search_paths or None)
         exc, _ = guarded(lambda: t.compile("string", PRELUDE, None), 60)
+        setup = project(exc, r)
+        setup.update(call="setup", texts=PRELUDE_LENS, **blank)
+        info = {"text": r.text, "rules": r.rules,
+                "inc": next((x["text"] for x in r.texts if x["fid"] == 2),
+                            None)}
         if exc is not None:
-            return {"error": "prelude failed on %s: %r" % (handle, exc)}
+            return {"events": [setup], "info": info}
         if t.stub is not None:
             t.stub.rules = [list(x) for x in r.rules]
         exc, secs = guarded(
             lambda: t.compile(api, r.text, r.files[1]), timeout)
         bad = project(exc, r)
-        bad.update(call="bad", ses=ses, texts=text_lens(r),
-                   digest="", refout="", refdigest="")
-        info = {"text": r.text, "secs": round(secs, 3),
-                "inc": next((x["text"] for x in r.texts if x["fid"] == 2),
-                            None),
-                "rules": r.rules,
-                "stublog": list(t.stub.log) if t.stub is not None else []}
+        bad.update(call="bad", ses=ses, texts=text_lens(r), **blank)
+        info["secs"] = round(secs, 3)
+        info["stublog"] = list(t.stub.log) if t.stub is not None else []
         if t.stub is not None:
             t.stub.rules = []
         exc2, secs2 = guarded(lambda: t.compile("string", GOOD, None), timeout)
@@ -923,8 +929,36 @@ def run_session(ses, seed, workdir, timeout=10.0, keep=False):
         good.update(call="good", texts=GOOD_LENS,
                     digest=t.dump_good() if exc2 is None else "",
                     refout=refout, refdigest=refdigest)
-        return {"events": [bad, good], "info": info}
+        return {"events": [setup, bad, good], "info": info}
     finally:
         os.chdir(cwd)
         if not keep:
             shutil.rmtree(workdir, ignore_errors=True)
+
+
+def worker_main(jobs_path, out_path):
+    """Process entry: run the jobs of a JSON file, one result line each.  A
+    {"begin": sid} line precedes every session so that the parent can tell
+    which session a stalled worker was in."""
+    import json
+    with open(jobs_path) as f:
+        spec = json.load(f)
+    base = spec["workdir"]
+    with open(out_path, "a") as out:
+        for job in spec["jobs"]:
+            out.write(json.dumps({"begin": job["sid"]}) + "\n")
+            out.flush()
+            try:
+                res = run_session(job["ses"], job["seed"],
+                                  os.path.join(base, "s%d" % job["sid"]),
+                                  timeout=spec.get("timeout", 10.0))
+            except Exception as exc:  # noqa: harness problem, parent decides
+                res = {"error": "%s: %s\n%s" % (
+                    type(exc).__name__, exc, traceback.format_exc()[-1500:])}
+            res["sid"] = job["sid"]
+            out.write(json.dumps(res) + "\n")
+            out.flush()
+
+
+if __name__ == "__main__":
+    worker_main(sys.argv[1], sys.argv[2])
